@@ -30,6 +30,14 @@ def run_trace(chk, script, name, exact_tags=frozenset(), compare_bytes=True):
             cmd[k] = e.exec_arg(fresh)
         cmds.append(cmd)
     evs = run_script(cmds, timeout=1800)
+    # a reference to an output that does not exist (the call it points to was refused): validate the prefix up
+    # to there - the refusal itself is in it
+    for k, ev in enumerate(evs):
+        if "tool_error" in ev and "ref" in str(ev["tool_error"]):
+            script.cmds = script.cmds[:k]
+            cmds = cmds[:k]
+            evs = evs[:k]
+            break
     lines = []
     for c, ev in zip(script.cmds, evs):
         kind = result_kind(ev)
